@@ -11,8 +11,8 @@ pub fn prop() -> HistProp {
         focus: &["C12"],
         opts: HistOpts { max_ops: 50, small_limits: true, send_weight: 9, timer_weight: 6, deliver_weight: 6, ..HistOpts::default() },
         drain: false,
-        quick: 20_000,
-        thorough: 400_000,
+        quick: 150_000,
+        thorough: 2_000_000,
         rule: "operation histories generated as one value (sends with application attributes, indications, clock advances, timer calls exact/early/late, replies to outstanding/finished/unknown ids with every authentication and fingerprint variant, 401/438 challenges, garbage and mutated buffers) run against a real client and the reference tracker in lock-step under a virtual clock; limits 0-4 and 10; send_request must return the maximum-outstanding error exactly when (requests sent - requests with a final outcome) equals the limit, a refusal produces no event and an unchanged snapshot, indications never change the table; thorough adds random walks of 400 operations; non-trivial = the limit was hit after at least one failure-path final outcome (time-out, authentication failure, retry); distinct = hash of the history",
         assumptions: &["final outcomes are counted from the observed events"],
         nontrivial: |_, s| s.limit_hit_after_failure,
